@@ -87,6 +87,16 @@ class GetItems(GetOnly):
         return self.d.items()
 
 
+class PairsIterable:
+    """Raw (name, value) pairs behind nothing but __iter__ (a multidict's items view, a header list wrapper)."""
+
+    def __init__(self, pairs):
+        self.pairs = pairs
+
+    def __iter__(self):
+        return iter(self.pairs)
+
+
 class RaisingGet:
     def get(self, k, default=None):
         raise RuntimeError("headers unavailable")
@@ -140,6 +150,15 @@ def mk_exc(value, shape, casing, where, status=429):
         h = RaisingGet()
     elif shape == "tuplepairs":
         h = ((key, value),)
+    elif shape == "itemsview":
+        h = {"Content-Type": "x", key: value}.items()  # pairs, iterable any number of times, but not a Sequence
+    elif shape == "iterable":
+        h = PairsIterable([("Content-Type", "x"), (key, value)])
+    elif shape == "setpairs":
+        try:
+            h = frozenset([("Content-Type", "x"), (key, value)])
+        except TypeError:  # unhashable value
+            h = PairsIterable([(key, value)])
     else:
         raise KeyError(shape)
     if where == "headers":
@@ -147,7 +166,7 @@ def mk_exc(value, shape, casing, where, status=429):
     else:
         e.response = RESP_KINDS[(len(casing) + len(shape) + len(str(type(value)))) % len(RESP_KINDS)](h)
     # can the lookup be expected to find the value?
-    if shape in ("dict", "dict+noise", "mapsub", "getitems", "pairs", "tuplepairs"):
+    if shape in ("dict", "dict+noise", "mapsub", "getitems", "pairs", "tuplepairs", "itemsview", "iterable", "setpairs"):
         found = "yes"
     elif shape == "getonly":
         found = "yes" if casing in ("Retry-After", "retry-after") else "maybe"
@@ -156,7 +175,7 @@ def mk_exc(value, shape, casing, where, status=429):
     return e, found
 
 
-SHAPES = ["dict", "dict+noise", "mapsub", "getonly", "getitems", "pairs", "tuplepairs", "nonpairs", "raisingget"]
+SHAPES = ["dict", "dict+noise", "mapsub", "getonly", "getitems", "pairs", "tuplepairs", "nonpairs", "raisingget", "itemsview", "iterable", "setpairs"]
 
 
 def classify_value(v):
@@ -325,7 +344,7 @@ def work(ctx, tier):
             v = w.format(s)
             if not mine():
                 continue
-            shape = SHAPES[idx[0] % 6]
+            shape = SHAPES[idx[0] % len(SHAPES)]
             casing = CASINGS[idx[0] % 4]
             where = ("headers", "response", "attr")[idx[0] % 3]
             check_value(v, shape, casing, where, "digits" if w.strip() == "{}" else "digits-decorated")
